@@ -5,9 +5,24 @@
 //!   add <h> <a> | set <h> <a> | rm <h> | rmmany <h,h,..> | clear | merge
 //!   o.add / o.set / o.rm / o.rmmany / o.clear / o.merge   (the same on the second sketch `o`;
 //!   `merge` merges `o` into the main sketch, `o.merge` the main sketch into `o`)
+//!   every other insertion / removal entry point (bulk steps; abstract meaning = the fold of the
+//!   single steps):
+//!     addh <h> (add_hash) | addmany <h,..> (add_many) | addab <h:a,..> (add_many_with_abund) |
+//!     addfrom / rmfrom (add_from / remove_from with the other sketch as operand; the tree type has
+//!     no remove_from, `remove_many(other.mins())` is its spelling) | addword <hex> (add_word)
+//!   observers (abstract meaning: nothing changes):
+//!     md5 (md5sum(); answer `md5=<hex> <obs>`) | eq (`target == operand`; answer `eq=<0|1> <obs>`) |
+//!     clone (target := operand.clone(): parameters, content AND digest cache of the operand) |
+//!     ser (serde_json::to_string, result dropped) | reload (target := from_str(to_string(target)))
+//!   C API (vector type only), the register handed over as a `SourmashKmerMinHash` handle WITHOUT
+//!   cloning it (ForeignObject::from_rust / into_rust; a clone would fill the digest cache):
+//!     cadd <h> <a> | caddh <h> | crm <h> | crmmany <l> | cclear | cmerge | caddfrom | crmfrom |
+//!     caddmany <l> (kmerminhash_add_many) | csetab <clear> <h:a,..> (kmerminhash_set_abundances)
 //! Response to every op: the canonical observation of the sketch the op acted on,
 //!   `mins=<list> abunds=<list|none> size=<n> sum=<n> empty=<0|1>`.
 use sourmash::encodings::HashFunctions;
+use sourmash::ffi::minhash::*;
+use sourmash::ffi::utils::{sourmash_err_clear, sourmash_err_get_last_code, ForeignObject};
 use sourmash::signature::SigsTrait;
 use sourmash::sketch::minhash::{max_hash_for_scaled, KmerMinHash, KmerMinHashBTree};
 use verif_harness::*;
@@ -88,6 +103,169 @@ impl Sk {
             _ => unreachable!(),
         }
     }
+    fn addh(&mut self, h: u64) {
+        match self {
+            Sk::V(m) => m.add_hash(h),
+            Sk::T(m) => m.add_hash(h),
+        }
+    }
+    fn addmany(&mut self, hs: &[u64]) -> Result<(), sourmash::Error> {
+        match self {
+            Sk::V(m) => m.add_many(hs),
+            Sk::T(m) => m.add_many(hs),
+        }
+    }
+    fn addab(&mut self, ps: &[(u64, u64)]) -> Result<(), sourmash::Error> {
+        match self {
+            Sk::V(m) => m.add_many_with_abund(ps),
+            Sk::T(m) => m.add_many_with_abund(ps),
+        }
+    }
+    fn addfrom(&mut self, o: &Sk) -> Result<(), sourmash::Error> {
+        match (self, o) {
+            (Sk::V(m), Sk::V(o)) => m.add_from(o),
+            (Sk::T(m), Sk::T(o)) => m.add_from(o),
+            _ => unreachable!(),
+        }
+    }
+    fn rmfrom(&mut self, o: &Sk) -> Result<(), sourmash::Error> {
+        match (self, o) {
+            (Sk::V(m), Sk::V(o)) => m.remove_from(o),
+            (Sk::T(m), Sk::T(o)) => m.remove_many(o.mins()),
+            _ => unreachable!(),
+        }
+    }
+    fn addword(&mut self, w: &[u8]) {
+        match self {
+            Sk::V(m) => m.add_word(w),
+            Sk::T(m) => m.add_word(w),
+        }
+    }
+    fn md5(&self) -> String {
+        match self {
+            Sk::V(m) => m.md5sum(),
+            Sk::T(m) => m.md5sum(),
+        }
+    }
+    fn eq(&self, o: &Sk) -> bool {
+        match (self, o) {
+            (Sk::V(m), Sk::V(o)) => m == o,
+            (Sk::T(m), Sk::T(o)) => m == o,
+            _ => unreachable!(),
+        }
+    }
+    fn cloned(&self) -> Sk {
+        match self {
+            Sk::V(m) => Sk::V(m.clone()),
+            Sk::T(m) => Sk::T(m.clone()),
+        }
+    }
+    fn ser(&self) -> String {
+        match self {
+            Sk::V(m) => serde_json::to_string(m).unwrap(),
+            Sk::T(m) => serde_json::to_string(m).unwrap(),
+        }
+    }
+    fn reload(&self) -> Sk {
+        match self {
+            Sk::V(_) => Sk::V(serde_json::from_str(&self.ser()).unwrap()),
+            Sk::T(_) => Sk::T(serde_json::from_str(&self.ser()).unwrap()),
+        }
+    }
+}
+
+fn parse_pairs(s: &str) -> Vec<(u64, u64)> {
+    if s == "-" || s.is_empty() {
+        return vec![];
+    }
+    s.split(',')
+        .map(|w| {
+            let (h, a) = w.split_once(':').unwrap();
+            (h.parse().unwrap(), a.parse().unwrap())
+        })
+        .collect()
+}
+
+fn show_pairs(v: &[(u64, u64)]) -> String {
+    if v.is_empty() {
+        "-".into()
+    } else {
+        v.iter().map(|(h, a)| format!("{}:{}", h, a)).collect::<Vec<_>>().join(",")
+    }
+}
+
+// ------------------------------------------------------------------------------- C-API plumbing
+
+/// set by the panic hook: a panic inside an `ffi_fn!` body is swallowed by `landingpad`
+static PANICKED: std::sync::atomic::AtomicBool = std::sync::atomic::AtomicBool::new(false);
+
+fn ffi_begin() {
+    static HOOK: std::sync::Once = std::sync::Once::new();
+    HOOK.call_once(|| {
+        std::panic::set_hook(Box::new(|_| {
+            PANICKED.store(true, std::sync::atomic::Ordering::SeqCst);
+        }))
+    });
+    PANICKED.store(false, std::sync::atomic::Ordering::SeqCst);
+    unsafe { sourmash_err_clear() };
+}
+
+fn ffi_end() -> Result<(), String> {
+    let code = unsafe { sourmash_err_get_last_code() } as u32;
+    unsafe { sourmash_err_clear() };
+    if PANICKED.swap(false, std::sync::atomic::Ordering::SeqCst) {
+        return Err("PANIC".into());
+    }
+    match code {
+        0 => Ok(()),
+        101 => Err("err MismatchKSizes".into()),
+        102 => Err("err MismatchDNAProt".into()),
+        103 => Err("err MismatchScaled".into()),
+        104 => Err("err MismatchSeed".into()),
+        c => Err(format!("err code{}", c)),
+    }
+}
+
+/// one C-API op on `tgt` (operand `src`), both handed over as handles made from the VALUES
+/// themselves and taken back afterwards: no clone, the digest caches stay as they are
+fn capi(tgt: Sk, src: Sk, op: &str, ws: &[&str]) -> (Sk, Sk, Result<(), String>) {
+    let (t, o) = match (tgt, src) {
+        (Sk::V(t), Sk::V(o)) => (t, o),
+        (t, o) => return (t, o, Err("bad-op".into())),
+    };
+    let n = |i: usize| -> u64 { ws[i].parse().unwrap() };
+    unsafe {
+        let h = SourmashKmerMinHash::from_rust(t);
+        let oh = SourmashKmerMinHash::from_rust(o);
+        ffi_begin();
+        let mut known = true;
+        match op {
+            "cadd" => kmerminhash_add_hash_with_abundance(h, n(1), n(2)),
+            "caddh" => kmerminhash_add_hash(h, n(1)),
+            "crm" => kmerminhash_remove_hash(h, n(1)),
+            "crmmany" => {
+                let hs = parse_nats(ws[1]);
+                kmerminhash_remove_many(h, hs.as_ptr(), hs.len())
+            }
+            "cclear" => kmerminhash_clear(h),
+            "cmerge" => kmerminhash_merge(h, oh),
+            "caddfrom" => kmerminhash_add_from(h, oh),
+            "crmfrom" => kmerminhash_remove_from(h, oh),
+            "caddmany" => {
+                let hs = parse_nats(ws[1]);
+                kmerminhash_add_many(h, hs.as_ptr(), hs.len())
+            }
+            "csetab" => {
+                let (hs, abs): (Vec<u64>, Vec<u64>) = parse_pairs(ws[2]).into_iter().unzip();
+                kmerminhash_set_abundances(h, hs.as_ptr(), abs.as_ptr(), hs.len(), ws[1] == "1")
+            }
+            _ => known = false,
+        }
+        let r = ffi_end();
+        let t = *SourmashKmerMinHash::into_rust(h);
+        let o = *SourmashKmerMinHash::into_rust(oh);
+        (Sk::V(t), Sk::V(o), if known { r } else { Err("bad-op".into()) })
+    }
 }
 
 struct St {
@@ -140,7 +318,51 @@ fn step(st: &mut St, ws: &[&str]) -> String {
         std::mem::swap(&mut tgt, &mut src);
     }
     let n = |i: usize| -> u64 { ws[i].parse().unwrap() };
+    if op.starts_with('c') && !matches!(op, "clear" | "clone") {
+        let (t, o, r) = capi(tgt, src, op, ws);
+        let out = match r {
+            Ok(()) => t.obs(),
+            Err(e) => e,
+        };
+        let (t, o) = if on_other { (o, t) } else { (t, o) };
+        st.main = Some(t);
+        st.other = Some(o);
+        return out;
+    }
+    let mut prefix = String::new();
     let r: Result<(), String> = match op {
+        "addh" => {
+            tgt.addh(n(1));
+            Ok(())
+        }
+        "addmany" => tgt.addmany(&parse_nats(ws[1])).map_err(|e| err_name(&e)),
+        "addab" => tgt.addab(&parse_pairs(ws[1])).map_err(|e| err_name(&e)),
+        "addfrom" => tgt.addfrom(&src).map_err(|e| err_name(&e)),
+        "rmfrom" => tgt.rmfrom(&src).map_err(|e| err_name(&e)),
+        "addword" => {
+            tgt.addword(&unhex(ws[1]));
+            Ok(())
+        }
+        "md5" => {
+            prefix = format!("md5={} ", tgt.md5());
+            Ok(())
+        }
+        "eq" => {
+            prefix = format!("eq={} ", tgt.eq(&src) as u8);
+            Ok(())
+        }
+        "clone" => {
+            tgt = src.cloned();
+            Ok(())
+        }
+        "ser" => {
+            let _ = tgt.ser();
+            Ok(())
+        }
+        "reload" => {
+            tgt = tgt.reload();
+            Ok(())
+        }
         "add" => {
             tgt.add(n(1), n(2));
             Ok(())
@@ -165,7 +387,7 @@ fn step(st: &mut St, ws: &[&str]) -> String {
         _ => Err("bad-op".into()),
     };
     let out = match r {
-        Ok(()) => tgt.obs(),
+        Ok(()) => format!("{}{}", prefix, tgt.obs()),
         Err(e) => e,
     };
     if on_other {
@@ -221,10 +443,201 @@ fn gen_exhaustive(o: &mut Out, depth: u32) {
     }
 }
 
+fn case_line(tree: bool, num: u64, scaled: u64, mh: u64, track: bool, onum: u64, otrack: bool) -> String {
+    format!(
+        "{} num={} scaled={} mh={} track={} onum={} otrack={}",
+        if tree { "tree" } else { "vec" },
+        num,
+        scaled,
+        mh,
+        track as u8,
+        onum,
+        otrack as u8
+    )
+}
+
+/// the C-API spelling of an op, where there is one
+fn capi_name(op: &str) -> Option<&'static str> {
+    Some(match op {
+        "add" => "cadd",
+        "addh" => "caddh",
+        "rm" => "crm",
+        "rmmany" => "crmmany",
+        "clear" => "cclear",
+        "merge" => "cmerge",
+        "addfrom" => "caddfrom",
+        "rmfrom" => "crmfrom",
+        "addmany" => "caddmany",
+        _ => return None,
+    })
+}
+
+/// Small scope over the BULK entry points, exhaustively: every pair list of length <= 2 over the
+/// 4-hash universe x abundances {0,1,2} (plus `extra` random lists of length 3-4), handed to
+/// add_many_with_abund / add_many / kmerminhash_set_abundances / kmerminhash_add_many of an EMPTY
+/// receiver (`o`) and of a receiver that already holds one hash (or nothing), followed by add_from,
+/// remove_from and merge between the two; both types x {scaled, num = 2} x tracking on/off.
+fn gen_bulk_exhaustive(o: &mut Out, r: &mut Rng, extra: u64) {
+    for tree in [false, true] {
+        for is_scaled in [true, false] {
+            for track in [false, true] {
+                let (scaled, num) = if is_scaled { (1u64 << 63, 0) } else { (0, 2) };
+                let mh = max_hash_for_scaled(scaled);
+                let c = if is_scaled { mh } else { 2 };
+                let uni = [0u64, 1, c, c + 1];
+                let mut pairs: Vec<(u64, u64)> = vec![];
+                for h in uni {
+                    for a in [0u64, 1, 2] {
+                        pairs.push((h, a));
+                    }
+                }
+                let mut lists: Vec<Vec<(u64, u64)>> = vec![vec![]];
+                for p in &pairs {
+                    lists.push(vec![*p]);
+                }
+                for p in &pairs {
+                    for q in &pairs {
+                        lists.push(vec![*p, *q]);
+                    }
+                }
+                for _ in 0..extra {
+                    let n = r.range(3, 4);
+                    lists.push((0..n).map(|_| *r.pick(&pairs)).collect());
+                }
+                let prefixes = ["", "add 0 1", "add 1 2", &format!("add {} 1", c)];
+                for (li, l) in lists.iter().enumerate() {
+                    for (pi, pre) in prefixes.iter().enumerate() {
+                        let otrack = track ^ ((li + pi) % 3 == 0);
+                        o.case(&format!("{} bulk", case_line(tree, num, scaled, mh, track, num, otrack)));
+                        if !pre.is_empty() {
+                            o.op(pre);
+                        }
+                        let keys = show_nats(l.iter().map(|p| p.0));
+                        let capi = !tree && (li + pi) % 2 == 1;
+                        o.op(&format!("o.addab {}", show_pairs(l)));
+                        o.op(&format!("addab {}", show_pairs(l)));
+                        o.op(if capi { "o.cclear" } else { "o.clear" });
+                        o.op(&format!("o.{} {}", if capi { "caddmany" } else { "addmany" }, keys));
+                        o.op(&format!("{} {}", if capi { "caddmany" } else { "addmany" }, keys));
+                        if !tree {
+                            o.op(&format!("o.csetab 1 {}", show_pairs(l)));
+                            o.op(&format!("csetab 0 {}", show_pairs(l)));
+                        }
+                        o.op(if capi { "caddfrom" } else { "addfrom" });
+                        o.op(if capi { "o.crmfrom" } else { "o.rmfrom" });
+                        o.op(if capi { "cmerge" } else { "merge" });
+                    }
+                }
+            }
+        }
+    }
+}
+
+/// Merges whose operands were OBSERVED first: md5sum / == / serialisation / Clone between the
+/// mutators, the second operand a clone of the first, a reloaded copy, or a separately built sketch
+/// holding the SAME hash set with other abundances (and possibly the other tracking mode).
+fn gen_observed(o: &mut Out, r: &mut Rng, n: u64) {
+    let scaleds: [u64; 4] = [1, 2, 1000, 1u64 << 63];
+    for _ in 0..n {
+        let tree = r.chance(1, 2);
+        let is_scaled = r.chance(3, 5);
+        let (scaled, num) = if is_scaled { (*r.pick(&scaleds), 0u64) } else { (0, r.range(1, 6)) };
+        let onum = if is_scaled || r.chance(3, 4) { num } else { r.range(1, 6) };
+        let mh = max_hash_for_scaled(scaled);
+        let track = r.chance(3, 4);
+        let otrack = if r.chance(3, 4) { track } else { !track };
+        o.case(&format!("{} observed", case_line(tree, num, scaled, mh, track, onum, otrack)));
+        let nk = r.range(0, 6);
+        let mut keys: Vec<u64> = vec![];
+        for _ in 0..nk {
+            let h = if is_scaled {
+                if mh < 16 {
+                    r.range(0, mh)
+                } else if r.chance(1, 8) {
+                    mh - r.below(2)
+                } else {
+                    r.below(mh)
+                }
+            } else if r.chance(1, 2) {
+                r.range(0, 12)
+            } else {
+                r.bits(64)
+            };
+            keys.push(h);
+        }
+        let with_ab = |r: &mut Rng, ks: &[u64]| -> Vec<(u64, u64)> { ks.iter().map(|k| (*k, r.range(1, 5))).collect() };
+        let observe = |o: &mut Out, r: &mut Rng, pfx: &str| {
+            for _ in 0..r.below(3) {
+                o.op(&format!("{}{}", pfx, *r.pick(&["md5", "md5", "eq", "ser"])));
+            }
+        };
+        let first = with_ab(r, &keys);
+        o.op(&format!("addab {}", show_pairs(&first)));
+        observe(o, r, "");
+        match r.below(5) {
+            0 => o.op("o.clone"),
+            1 => {
+                // the same hash set, other abundances, built separately, digest requested
+                let mut second = with_ab(r, &keys);
+                second.reverse();
+                o.op(&format!("o.addab {}", show_pairs(&second)));
+                o.op("o.md5");
+                o.op("md5");
+            }
+            2 => {
+                // a clone whose abundances are then bumped / overwritten: the digest cache survives
+                o.op("o.clone");
+                for k in keys.iter().take(3) {
+                    if tree || r.chance(1, 2) {
+                        o.op(&format!("o.add {} {}", k, r.range(1, 3)));
+                    } else {
+                        o.op(&format!("o.set {} {}", k, r.range(0, 3)));
+                    }
+                }
+            }
+            3 => {
+                o.op("o.clone");
+                o.op("o.reload");
+                if r.chance(1, 2) {
+                    o.op("reload");
+                }
+            }
+            _ => {
+                // same hash set through add_many on the second sketch, compared with ==
+                o.op(&format!("o.addmany {}", show_nats(keys.iter().cloned())));
+                o.op("eq");
+            }
+        }
+        observe(o, r, "o.");
+        let cm = |r: &mut Rng, tree: bool, op: &str| -> String {
+            if !tree && r.chance(1, 3) {
+                op.replace("merge", "cmerge")
+            } else {
+                op.to_string()
+            }
+        };
+        o.op(&cm(r, tree, "merge"));
+        observe(o, r, "");
+        o.op(&cm(r, tree, "o.merge"));
+        // and once more with the now-equal sketches, after another insertion on one side
+        if r.chance(1, 2) {
+            let h = if is_scaled { r.below(mh.max(1)) } else { r.range(0, 12) };
+            o.op(&format!("add {} {}", h, r.range(1, 3)));
+        }
+        o.op("md5");
+        o.op("o.md5");
+        o.op(&cm(r, tree, "merge"));
+        o.op("o.clone");
+        o.op(&cm(r, tree, "o.merge"));
+    }
+}
+
 fn gen(a: &Args) {
     let mut r = Rng::new(a.seed);
     let mut o = Out::new();
     gen_exhaustive(&mut o, if a.tier == "thorough" { 4 } else { 3 });
+    gen_bulk_exhaustive(&mut o, &mut r, if a.tier == "thorough" { 2000 } else { 60 });
+    gen_observed(&mut o, &mut r, if a.tier == "thorough" { 60_000 } else { 2_500 });
     let ncases = if a.cases > 0 {
         a.cases
     } else if a.tier == "thorough" {
@@ -305,7 +718,7 @@ fn gen(a: &Args) {
             match k {
                 0..=39 => {
                     let (h, ab) = (hash(&mut r), abund(&mut r));
-                    o.op(&format!("add {} {}", h, ab));
+                    o.op(&format!("{} {} {}", if !tree && r.chance(1, 6) { "cadd" } else { "add" }, h, ab));
                 }
                 40..=47 => {
                     let on_o = r.chance(1, 4);
@@ -330,11 +743,62 @@ fn gen(a: &Args) {
                     let on_o = r.chance(1, 4);
                     o.op(&format!("{}clear", pfx(on_o)));
                 }
-                68..=77 => o.op("merge"),
-                78..=80 => o.op("o.merge"),
-                _ => {
+                68..=74 => o.op(if !tree && r.chance(1, 3) { "cmerge" } else { "merge" }),
+                75..=76 => o.op("o.merge"),
+                77..=84 => {
                     let (h, ab) = (hash(&mut r), abund(&mut r));
                     o.op(&format!("o.add {} {}", h, ab));
+                }
+                85..=93 => {
+                    // a bulk entry point: list sorted strictly increasing / as drawn / with repeats;
+                    // one in four on a receiver that was just emptied
+                    let on_o = r.chance(1, 3);
+                    let n = r.range(0, 7);
+                    let mut ps: Vec<(u64, u64)> = (0..n).map(|_| (hash(&mut r), abund(&mut r))).collect();
+                    match r.below(3) {
+                        0 => {
+                            ps.sort();
+                            ps.dedup_by_key(|p| p.0);
+                        }
+                        1 => {
+                            for i in 0..ps.len() {
+                                if r.chance(1, 3) {
+                                    let d = (ps[i].0, abund(&mut r));
+                                    ps.push(d);
+                                }
+                            }
+                        }
+                        _ => {}
+                    }
+                    if r.chance(1, 4) {
+                        o.op(&format!("{}clear", pfx(on_o)));
+                    }
+                    let keys = show_nats(ps.iter().map(|p| p.0));
+                    let c = !tree && r.chance(1, 3);
+                    match r.below(if tree { 5 } else { 7 }) {
+                        0 | 1 => o.op(&format!("{}addab {}", pfx(on_o), show_pairs(&ps))),
+                        2 => o.op(&format!("{}{} {}", pfx(on_o), if c { "caddmany" } else { "addmany" }, keys)),
+                        3 => o.op(&format!("{}{} {}", pfx(on_o), if c { "crmmany" } else { "rmmany" }, keys)),
+                        4 => {
+                            let h = hash(&mut r);
+                            o.op(&format!("{}{} {}", pfx(on_o), if c { "caddh" } else { "addh" }, h));
+                        }
+                        _ => o.op(&format!("{}csetab {} {}", pfx(on_o), r.below(2), show_pairs(&ps))),
+                    }
+                }
+                94..=96 => {
+                    let on_o = r.chance(1, 2);
+                    let op = *r.pick(&["addfrom", "addfrom", "rmfrom"]);
+                    let op = if !tree && r.chance(1, 3) { capi_name(op).unwrap() } else { op };
+                    o.op(&format!("{}{}", pfx(on_o), op));
+                }
+                97 => {
+                    let w: Vec<u8> = (0..r.range(0, 24)).map(|_| *r.pick(b"ACGTacgtN")).collect();
+                    o.op(&format!("{}addword {}", pfx(r.chance(1, 4)), hex(&w)));
+                }
+                _ => {
+                    let on_o = r.chance(1, 2);
+                    o.op(&format!("{}{}", pfx(on_o), *r.pick(&["md5", "eq", "clone", "ser", "reload", "md5"])));
                 }
             }
         }
